@@ -289,6 +289,6 @@ func init() {
 		Check:    func(c any) Result { return checkC12(c.(*C12Case)) },
 		Extra:    c12Grid,
 		Quick:    4000,
-		Thorough: 20000,
+		Thorough: 200000,
 	})
 }
